@@ -30,6 +30,7 @@ func init() {
 	trust("MAKE-SIGN", []string{"sam.Seq.Expand"}, "Seq invariant: Length ≥ 0 (bam.Reader rejects negative l_seq; NewSeq uses len)")
 	trust("IDX-TABLE", []string{"sam.atoi"}, "len(b) ≤ len(powers) is tested on entry and 0 ≤ i < len(b), so 0 ≤ k−i < len(powers)")
 	trust("VAR-SLICE", []string{"bam.(*buffer).unsafeBytes"}, "b.len() < n (len(data)−off < n) is rejected just above, so off+n ≤ len(data); the helper call hides the relation from the rule")
+	trust("VAR-SLICE-ORDER", []string{"bam.(*buffer).unsafeBytes"}, "n ≥ 0 at every call site (a constant; a count widened from an unsigned field, the name length after its `< 1` test; lSeq after its sign test; b.len()): data[s:s+n] has s ≤ s+n. The clause follows neither the field update b.off += n nor the call sites")
 	trust("VAR-SLICE", []string{"bam.(*buffer).readUint8"}, "b.len() < 1 is rejected just above, so off−1 < len(data)")
 
 	register(&PropDef{
@@ -69,5 +70,5 @@ func init() {
 }
 
 // decoder functions whose variable slice bounds and cursor loops are anchored
-var varSliceFuncs = []string{"bam.parseAux", "bam.(*buffer).unsafeBytes", "bam.(*buffer).discard", "bam.(*buffer).readUint8"}
+var varSliceFuncs = []string{"bam.parseAux", "bam.(*buffer).unsafeBytes", "bam.(*buffer).discard", "bam.(*buffer).readUint8", "cram.(*Block).Value"}
 var loopProgressFuncs = []string{"bam.parseAux"}
